@@ -1,0 +1,24 @@
+//go:build verif
+
+package runtime
+
+import "sync"
+
+// Verification hooks for property C14 (add-only, compiled only with the verif tag).
+
+// VerifC14Pool exposes the Buffer pool (to count New calls and to look at pooled Buffers).
+func VerifC14Pool() *sync.Pool { return &bufferPool }
+
+// VerifC14Buffered reports the number of unflushed bytes in the Buffer (-1 before its first Reset).
+func (b *Buffer) VerifC14Buffered() int {
+	if b.b == nil {
+		return -1
+	}
+	return b.b.Buffered()
+}
+
+// VerifC14DevMode reports whether development mode was enabled at start-up.
+func VerifC14DevMode() bool { return developmentMode }
+
+// VerifC14WatchedStrings is getWatchedStrings.
+func VerifC14WatchedStrings(txtFilePath string) ([]string, error) { return getWatchedStrings(txtFilePath) }
